@@ -5,6 +5,7 @@ import (
 	"fmt"
 	"time"
 
+	cid "github.com/ipfs/go-cid"
 	ds "github.com/ipfs/go-datastore"
 	ipfscluster "github.com/ipfs/ipfs-cluster"
 	"github.com/ipfs/ipfs-cluster/allocator/ascendalloc"
@@ -13,7 +14,6 @@ import (
 	"github.com/ipfs/ipfs-cluster/config"
 	"github.com/ipfs/ipfs-cluster/datastore/inmem"
 	"github.com/ipfs/ipfs-cluster/monitor/pubsubmon"
-	cid "github.com/ipfs/go-cid"
 	libp2p "github.com/libp2p/go-libp2p"
 	crypto "github.com/libp2p/go-libp2p-core/crypto"
 	host "github.com/libp2p/go-libp2p-core/host"
@@ -77,6 +77,9 @@ type NodeOpts struct {
 	Informers []ipfscluster.Informer
 	APIs      []ipfscluster.API
 	BaseDir   string
+	// NoWaitReady returns right after NewCluster (a staging Raft peer only
+	// becomes ready once it has joined).
+	NoWaitReady bool
 }
 
 // QuietConfig returns a valid cluster config whose background activity is
@@ -184,6 +187,9 @@ func NewNode(ctx context.Context, o NodeOpts) (*Node, error) {
 		return nil, err
 	}
 	n.Client = tracer.Client()
+	if o.NoWaitReady {
+		return n, nil
+	}
 	select {
 	case <-n.Cluster.Ready():
 	case <-time.After(60 * time.Second):
